@@ -43,8 +43,9 @@ class Err(Exception):
 class Recv:
     """receivers are ==-equal and hash-equal but distinct instances"""
 
-    def __init__(self, idx):
+    def __init__(self, idx, gen=0):
         self.idx = idx
+        self.gen = gen      # which instance in slot idx this is (slots get new instances: Renew)
 
     def __eq__(self, other):
         return isinstance(other, Recv)
@@ -79,7 +80,8 @@ class CacheDriver:
         kw = dict(limit=limit, expiration=float(expn) if expn else None)
 
         def body(recv, args, kwargs):
-            drv.invs.append((recv, args, kwargs))
+            # (the receiver is remembered by slot and generation, not by reference: a discarded one has to be collectable)
+            drv.invs.append((None if recv is None else (recv.idx, recv.gen), args, kwargs))
             n = len(drv.invs)
             if drv.next_out == "val":
                 o = drv.objs[n] = Val(n)
@@ -135,12 +137,12 @@ class CacheDriver:
         if n is None or self.objs.get(n) is not o:
             return dict(inv=f"foreign {got[0]}: {o!r}", fresh=fresh, out=got[0])
         recv, a, k = self.invs[n - 1]
-        want_recv = self.recv[r] if self.form.endswith("method") else None
-        right = recv is want_recv and len(a) == len(args) and all(same_typed(x, y) for x, y in zip(a, args)) and \
+        want_recv = (self.recv[r].idx, self.recv[r].gen) if self.form.endswith("method") else None
+        right = recv == want_recv and len(a) == len(args) and all(same_typed(x, y) for x, y in zip(a, args)) and \
             set(k) == set(kwargs) and all(same_typed(k[x], kwargs[x]) for x in k)
         if not right:
             return dict(inv=f"WRONG-KEY: result of invocation {n} made for receiver "
-                            f"{getattr(recv, 'idx', None)} args {a!r} {k!r}", fresh=fresh, out=got[0])
+                            f"{recv} args {a!r} {k!r}", fresh=fresh, out=got[0])
         return dict(inv=n, fresh=fresh, out=got[0])
 
     def apply(self, name, args):
@@ -153,6 +155,16 @@ class CacheDriver:
             self.next_out = o
             res = self._invoke(r, key)
             self.last = dict(inv=res["inv"], fresh=res["fresh"], out=res["out"], at=self.now, drain=())
+            return self.last
+        if name == "Renew":
+            # the instance in the slot is dropped - really dropped: collected - and a new one takes the slot (the
+            # allocator tends to hand out the very same address again)
+            r = args[0]
+            cls, gen = type(self.recv[r]), self.recv[r].gen
+            old_id = id(self.recv[r])
+            del self.recv[r]              # nothing else refers to it: reference counting frees it at once
+            self.recv[r] = cls(r, gen + 1)
+            self.reused = getattr(self, "reused", 0) + (id(self.recv[r]) == old_id)
             return self.last
         if name == "Drain":
             self.next_out = "val"
@@ -185,7 +197,10 @@ def gen_trace(rnd, length):
     nkeys = rnd.choice([2, 3, 5])
     try:
         for _ in range(length):
-            if rnd.random() < 0.25:
+            if form.endswith("method") and rnd.random() < 0.08:
+                args = [rnd.choice([1, 2, 3])]
+                name = "Renew"
+            elif rnd.random() < 0.25:
                 args = [rnd.choice([1, 1, 2, 3])]
                 name = "Advance"
             else:
@@ -228,20 +243,20 @@ def groups(tier):
     because the method forms multiply the branching by the number of receivers"""
     if tier == "quick":
         return [
-            ("fn", dict(NKeys=3, NRecv=1, Forms=FN, Limits=[1, 2, 3], Expirations=[0, 2], MaxT=3, MaxOps=5, Outs=["val", "exc"], Steps=[1], Bug="none"),
-             dict(NKeys=3, NRecv=1, Forms=FN, Limits=[1, 2], Expirations=[0, 2], MaxT=3, MaxOps=3, Outs=["val", "exc"], Steps=[1], Bug="none")),
-            ("method", dict(NKeys=2, NRecv=2, Forms=METH, Limits=[1, 2, 3], Expirations=[0, 2], MaxT=3, MaxOps=5, Outs=["val", "exc"], Steps=[1], Bug="none"),
-             dict(NKeys=2, NRecv=2, Forms=METH, Limits=[1, 2], Expirations=[0, 2], MaxT=3, MaxOps=3, Outs=["val", "exc"], Steps=[1], Bug="none")),
+            ("fn", dict(NKeys=3, NRecv=1, Forms=FN, Limits=[1, 2, 3], Expirations=[0, 2], MaxT=3, MaxOps=5, Outs=["val", "exc"], Steps=[1], MaxRenew=1, Bug="none"),
+             dict(NKeys=3, NRecv=1, Forms=FN, Limits=[1, 2], Expirations=[0, 2], MaxT=3, MaxOps=3, Outs=["val", "exc"], Steps=[1], MaxRenew=1, Bug="none")),
+            ("method", dict(NKeys=2, NRecv=2, Forms=METH, Limits=[1, 2, 3], Expirations=[0, 2], MaxT=3, MaxOps=5, Outs=["val", "exc"], Steps=[1], MaxRenew=1, Bug="none"),
+             dict(NKeys=2, NRecv=2, Forms=METH, Limits=[1, 2], Expirations=[0, 2], MaxT=3, MaxOps=3, Outs=["val", "exc"], Steps=[1], MaxRenew=1, Bug="none")),
             # longer histories on a narrow configuration: expiry and LRU order interacting (re-stored keys, eviction
             # after a refresh) need 6+ operations to show
-            ("deep", dict(NKeys=3, NRecv=1, Forms=["sync_fn"], Limits=[2], Expirations=[2], MaxT=6, MaxOps=7, Outs=["val"], Steps=[3], Bug="none"),
-             dict(NKeys=3, NRecv=1, Forms=["sync_fn", "async_fn"], Limits=[2], Expirations=[2], MaxT=6, MaxOps=6, Outs=["val"], Steps=[3], Bug="none")),
+            ("deep", dict(NKeys=3, NRecv=1, Forms=["sync_fn"], Limits=[2], Expirations=[2], MaxT=6, MaxOps=7, Outs=["val"], Steps=[3], MaxRenew=0, Bug="none"),
+             dict(NKeys=3, NRecv=1, Forms=["sync_fn", "async_fn"], Limits=[2], Expirations=[2], MaxT=6, MaxOps=6, Outs=["val"], Steps=[3], MaxRenew=0, Bug="none")),
         ]
     return [
-        ("fn", dict(NKeys=3, NRecv=1, Forms=FN, Limits=[1, 2, 3], Expirations=[0, 2, 3], MaxT=4, MaxOps=6, Outs=["val", "exc"], Steps=[1], Bug="none"),
-         dict(NKeys=4, NRecv=1, Forms=FN, Limits=[1, 2, 3], Expirations=[0, 2], MaxT=3, MaxOps=4, Outs=["val", "exc"], Steps=[1], Bug="none")),
-        ("method", dict(NKeys=2, NRecv=2, Forms=METH, Limits=[1, 2, 3], Expirations=[0, 2, 3], MaxT=4, MaxOps=6, Outs=["val", "exc"], Steps=[1], Bug="none"),
-         dict(NKeys=2, NRecv=2, Forms=METH, Limits=[1, 2, 3], Expirations=[0, 2], MaxT=3, MaxOps=4, Outs=["val", "exc"], Steps=[1], Bug="none")),
+        ("fn", dict(NKeys=3, NRecv=1, Forms=FN, Limits=[1, 2, 3], Expirations=[0, 2, 3], MaxT=4, MaxOps=6, Outs=["val", "exc"], Steps=[1], MaxRenew=1, Bug="none"),
+         dict(NKeys=4, NRecv=1, Forms=FN, Limits=[1, 2, 3], Expirations=[0, 2], MaxT=3, MaxOps=4, Outs=["val", "exc"], Steps=[1], MaxRenew=1, Bug="none")),
+        ("method", dict(NKeys=2, NRecv=2, Forms=METH, Limits=[1, 2, 3], Expirations=[0, 2, 3], MaxT=4, MaxOps=6, Outs=["val", "exc"], Steps=[1], MaxRenew=1, Bug="none"),
+         dict(NKeys=2, NRecv=2, Forms=METH, Limits=[1, 2, 3], Expirations=[0, 2], MaxT=3, MaxOps=4, Outs=["val", "exc"], Steps=[1], MaxRenew=1, Bug="none")),
     ]
 
 
@@ -250,10 +265,10 @@ def run(rep, work, tier, seed):
     rep.extra["constants"] = {g[0]: dict(model=g[1], conformance=g[2]) for g in gs}
     for name, mc, conf in gs:
         leg_m(rep, work, SPEC, f"mc_{name}_{tier}", cfg_text(mc, spec="Spec", invariants=INVS, properties=["Complete"]),
-              expect_actions=["Call", "Advance", "Drain"], timeout=3000)
+              expect_actions=["Call", "Advance", "Drain"] + (["Renew"] if name == "method" else []), timeout=3000)
     if tier == "thorough":
         small = dict(NKeys=3, NRecv=1, Forms=["sync_fn"], Limits=[1, 2], Expirations=[0, 2], MaxT=4, MaxOps=5,
-                     Outs=["val", "exc"], Steps=[1])
+                     Outs=["val", "exc"], Steps=[1], MaxRenew=0)
         for bug, inv in (("fifo", ["Complete"]), ("expiry_le", ["Complete"]), ("ge_limit", ["Complete"]),
                          ("evict_newest", ["Complete"])):
             leg_mutant(rep, work, SPEC, f"mutant_{bug}",
@@ -272,12 +287,12 @@ def run(rep, work, tier, seed):
     ntr, length = (150, 60) if tier == "quick" else (1500, 60)
     traces = gen_traces(rep, lambda: gen_trace(rnd, length), ntr)
     leg_t_gen(rep, work, SPEC, f"trace_{tier}", traces,
-              variables=["form", "limit", "expn", "now", "entries", "ninv", "invKey", "invAt", "invOut", "uses", "nops",
-                         "drained", "obs"],
+              variables=["form", "limit", "expn", "now", "entries", "ninv", "invKey", "invAt", "invOut", "uses", "rid", "nrid",
+                         "nren", "nops", "drained", "obs"],
               constants=dict(NKeys=5, NRecv=3, Forms='{"sync_fn", "sync_method", "async_fn", "async_method"}', Limits="1..4",
                              Expirations="{0, 2, 3, 5}", MaxT=100000, MaxOps=100000, Outs='{"val", "exc"}',
-                             Steps="1..3", Bug='"none"'),
-              config_vars=["form", "limit", "expn"], actions=dict(Call=3, Advance=1, Drain=0),
+                             Steps="1..3", MaxRenew=100000, Bug='"none"'),
+              config_vars=["form", "limit", "expn"], actions=dict(Call=3, Advance=1, Renew=1, Drain=0),
               invariants=["Capacity", "NoDuplicateKeys", "Sound"])
     rep.assumptions += [
         "key alphabet f(1), f(1.0), f(True), f(x=1), f(2) (==-equal, differently typed / positional vs keyword); method "
